@@ -60,3 +60,27 @@ def boundary_forests():
         v = ([b"n"], ("struct", [(b"k", v)]))
     fs.append([v])
     return fs
+
+
+def canon_trace(t):
+    """canonical form of a traversal trace for model-vs-code comparison: the model prints raw timestamp
+    bodies (T<hex>), the harness prints the semantic fields"""
+    return iongen.project_trace(t) if " T" in t or t.startswith("T") else t
+
+
+def canon_trace_full(t):
+    # keep symbol IDs (model and code must agree on them) but canonicalise timestamps
+    out = []
+    for x in t.split(" "):
+        if x.startswith("T") and len(x) > 1 and "," not in x:
+            try:
+                out.append(iongen.ts_token(iongen.ts_from_body(list(bytes.fromhex(x[1:])))))
+                continue
+            except Exception:
+                pass
+        out.append(x)
+    return " ".join(out)
+
+
+def encode_docs(ctx, forests, freedom=True):
+    return [iongen.Enc(ctx.rng, freedom).stream(f) for f in forests]
